@@ -3,6 +3,7 @@
    NOT from mila's source: Z-order (Morton) index, channel layouts + linear expansion, the ETC1 rules.
    Definitions only. *)
 From Coq Require Import List NArith ZArith Bool.
+From Mila Require Import Lib.Bytes.
 Import ListNotations.
 Local Open Scope N_scope.
 
@@ -17,8 +18,18 @@ Definition morton_y (i : N) : N := bitn i 1 + 2 * bitn i 3 + 4 * bitn i 5.
 (* source element of pixel (X, Y) in a w-wide texture of 8x8 tiles *)
 Definition tiled_index (w X Y : N) : N := ((Y / 8) * (w / 8) + X / 8) * 64 + morton (X mod 8) (Y mod 8).
 
+(* the i-th little-endian element of [bpe] bytes of a payload *)
+Definition element (bpe : N) (data : bytes) (i : N) : N :=
+  dec_le (firstn (N.to_nat bpe) (skipn (N.to_nat (i * bpe)) data)).
+
 (* ETC1 on the 3DS: block of pixel (X, Y) and texel inside it *)
 Definition etc_block_index (w X Y : N) : N := ((Y / 8) * (w / 8) + X / 8) * 4 + 2 * ((Y / 4) mod 2) + (X / 4) mod 2.
+
+(* (alpha word, colour word) of block number b of an ETC1 / ETC1A4 payload: little-endian u64s, the alpha
+   word first; plain ETC1 is opaque (all alpha nibbles 15) *)
+Definition etc_block_at (alpha : bool) (data : bytes) (b : N) : N * N :=
+  if alpha then (element 8 data (2 * b), element 8 data (2 * b + 1)) else (0xFFFFFFFFFFFFFFFF, element 8 data b).
+Definition etc_block_bytes (alpha : bool) : N := if alpha then 16 else 8.
 
 (* ---------------- channels ---------------- *)
 Definition field (v shift bits : N) : N := (v / 2 ^ shift) mod 2 ^ bits.
